@@ -129,6 +129,10 @@ func c06Enumerate(r *harness.Run, maxSlots int, rotations []int, visit func(data
 		done := r.Parallel(total, func(w int, idx uint64) {
 			clash := int(idx % 3)
 			x := idx / 3
+			if clash > 0 {
+				// which owner's label the user statement imitates and whether it stands before or after the scripts rotates with the data
+				clash += 2 * int(x%4)
+			}
 			rot := rotations[x%uint64(len(rotations))]
 			x /= uint64(len(rotations))
 			dist := dists[x%uint64(len(dists))]
@@ -222,7 +226,7 @@ func runC06(tier string) int {
 	r.Assume("names are <owner>_Text_<n> / <owner>_Movement_<n>, n counting the owner's new contents in source order of first appearance; content of a moves() is its written, expanded step list",
 		"identical content = identical text after terminator and format() processing and identical string type")
 	return r.Finish(r.Get("evaluations"), r.Get("nontrivial"),
-		"every file with N inline arguments distributed over 3 owners (two scripts and an inline map script, <= 3 each) x every assignment of 23 datum kinds (plain / already-terminated / formatted / other text, ascii, braille and custom types incl. typed texts whose final literal equals a plain one, one literal under six format() parameter sets of which two give the same result, 9 moves() spellings incl. lists that differ only in the length of their last run or whose run-length spelling collides with another step name) x context rotations over 13 contexts (statement, if, while, switch case, AutoVar condition, selected poryswitch case, '_' case after an unselected one, do-while condition, AutoVar leaf in a parenthesised / negated group followed by an operator, elif condition, AutoVar switch operand, second of two inline data in one command) x {no user name, a user text, a user movement named like a generated label}, every file defining constants named like the text contents and movement steps; plus long files with K pairwise different inline arguments for every K up to the bound in the coverage (5 text/movement patterns x 3 owner splits x 2 context rotations); non-trivial = some content is shared between two arguments")
+		"every file with N inline arguments distributed over 3 owners (two scripts and an inline map script, <= 3 each) x every assignment of 23 datum kinds (plain / already-terminated / formatted / other text, ascii, braille and custom types incl. typed texts whose final literal equals a plain one, one literal under six format() parameter sets of which two give the same result, 9 moves() spellings incl. lists that differ only in the length of their last run or whose run-length spelling collides with another step name) x context rotations over 13 contexts (statement, if, while, switch case, AutoVar condition, selected poryswitch case, '_' case after an unselected one, do-while condition, AutoVar leaf in a parenthesised / negated group followed by an operator, elif condition, AutoVar switch operand, second of two inline data in one command) x {no user name, a user text, a user movement named like a generated label of the first script or of the inline map script, before or after the scripts (rotating)}, every file defining constants named like the text contents and movement steps; plus long files with K pairwise different inline arguments for every K up to the bound in the coverage (5 text/movement patterns x 3 owner splits x 2 context rotations); non-trivial = some content is shared between two arguments")
 }
 
 func c06Eval(r *harness.Run, data []datum, dist []int, rot, clash int) {
@@ -302,17 +306,33 @@ func c06Eval(r *harness.Run, data []datum, dist []int, rot, clash int) {
 	}
 	expectError := false
 	userName := ""
-	switch clash {
-	case 1:
-		userName = "S1_Text_0"
-		sb.WriteString("text S1_Text_0 {\n\t\"user\"\n}\n")
-		_, expectError = labelContent[userName]
-	case 2:
-		userName = "S1_Movement_0"
-		sb.WriteString("movement S1_Movement_0 {\n\tuserstep\n}\n")
-		_, expectError = labelContent[userName]
-	}
 	src := sb.String()
+	if clash > 0 {
+		owner := []string{"S1", "S1", "Map_ON_LOAD", "Map_ON_LOAD"}[(clash-1)/2]
+		before := (clash-1)/2 == 1 || (clash-1)/2 == 2
+		var stmt string
+		if (clash-1)%2 == 0 {
+			userName = owner + "_Text_0"
+			stmt = "text " + userName + " {\n\t\"user\"\n}\n"
+		} else {
+			userName = owner + "_Movement_0"
+			stmt = "movement " + userName + " {\n\tuserstep\n}\n"
+		}
+		_, expectError = labelContent[userName]
+		if before {
+			// after the constants, before the scripts
+			i := strings.Index(src, "script ")
+			if j := strings.Index(src, "mapscripts "); j >= 0 && (i < 0 || j < i) {
+				i = j
+			}
+			if i < 0 {
+				i = len(src)
+			}
+			src = src[:i] + stmt + "\n" + src[i:]
+		} else {
+			src += stmt
+		}
+	}
 	// Slot commands that stand in a condition are AutoVar commands.
 	cc := parser.CommandConfig{AutoVarCommands: map[string]parser.AutoVarCommand{}}
 	for c := range auto {
